@@ -641,3 +641,111 @@ func (p *Prog) resolveFreeVarDeep(fv *ssa.FreeVar) ssa.Value {
 func (p *Prog) cvKeyName(a *ssa.Alloc) string {
 	return a.Comment + "@" + a.Name()
 }
+
+// ComputeInitOnly finds struct fields that are only ever written on objects allocated by the
+// writing function itself (constructor-only fields). Such a field of an object that existed before
+// a call or a loop cannot be changed by that call or loop.
+func (p *Prog) ComputeInitOnly() {
+	written := map[string]bool{}
+	escaped := map[string]bool{} // written through something that is not a local allocation
+	for _, fn := range p.FuncList {
+		for _, b := range fn.Blocks {
+			for _, in := range b.Instrs {
+				st, ok := in.(*ssa.Store)
+				if !ok {
+					continue
+				}
+				fa, ok := st.Addr.(*ssa.FieldAddr)
+				if !ok {
+					// whole-struct stores through pointers: all fields of that struct are affected
+					if pt, ok := st.Addr.Type().Underlying().(*types.Pointer); ok {
+						if sst, ok := pt.Elem().Underlying().(*types.Struct); ok {
+							if _, local, _ := p.structSortName(pt.Elem()); local {
+								if _, isAlloc := st.Addr.(*ssa.Alloc); !isAlloc {
+									for i := 0; i < sst.NumFields(); i++ {
+										escaped[p.fieldKey(pt.Elem(), i)] = true
+									}
+								}
+							}
+						}
+					}
+					continue
+				}
+				stT := derefType(fa.X.Type())
+				if _, local, _ := p.structSortName(stT); !local {
+					continue
+				}
+				key := p.fieldKey(stT, fa.Field)
+				written[key] = true
+				if al, ok := fa.X.(*ssa.Alloc); ok && al.Parent() == fn {
+					continue
+				}
+				escaped[key] = true
+			}
+		}
+	}
+	p.InitOnly = map[string]bool{}
+	for _, k := range p.allFieldKeys() {
+		if !escaped[k] {
+			p.InitOnly[k] = true
+		}
+	}
+}
+
+// ComputeAppendOnly: element types whose slice elements are never overwritten in place
+// (no s[i] = x, no copy into, no re-slicing, not handed to library code). In-bounds elements of a
+// slice of such a type held in an unescaped object cannot be changed by a callee
+// (assumption: no append to a stale header that shares its backing array with a longer one).
+func (p *Prog) ComputeAppendOnly() {
+	bad := map[string]bool{}
+	seen := map[string]bool{}
+	mark := func(t types.Type) {
+		if st, ok := t.Underlying().(*types.Slice); ok {
+			bad[p.elemKey(st.Elem())] = true
+		}
+	}
+	for _, fn := range p.FuncList {
+		for _, b := range fn.Blocks {
+			for _, in := range b.Instrs {
+				switch x := in.(type) {
+				case *ssa.Store:
+					if ia, ok := x.Addr.(*ssa.IndexAddr); ok {
+						if st, ok := ia.X.Type().Underlying().(*types.Slice); ok {
+							bad[p.elemKey(st.Elem())] = true
+						}
+					}
+				case *ssa.Slice:
+					if _, ok := x.X.Type().Underlying().(*types.Slice); ok {
+						mark(x.X.Type())
+					}
+				case *ssa.MakeInterface:
+					mark(x.X.Type())
+				case ssa.CallInstruction:
+					c := x.Common()
+					if bi, ok := c.Value.(*ssa.Builtin); ok {
+						if bi.Name() == "copy" {
+							mark(c.Args[0].Type())
+						}
+						if bi.Name() == "append" {
+							if st, ok := c.Args[0].Type().Underlying().(*types.Slice); ok {
+								seen[p.elemKey(st.Elem())] = true
+							}
+						}
+						continue
+					}
+					if sc := c.StaticCallee(); sc != nil && !p.isLocalFn(sc) {
+						for _, a := range c.Args {
+							mark(a.Type())
+						}
+					}
+				}
+			}
+		}
+	}
+	p.AppendOnly = map[string]bool{}
+	for k := range seen {
+		if !bad[k] {
+			p.AppendOnly[k] = true
+		}
+	}
+}
